@@ -8,7 +8,7 @@ EXTENDS Glob, Json, TLC, SequencesExt
 
 CONSTANTS LP, PALPHA, EMIT
 
-S1 == {97, 65, 98, 93, 45, 33, 92, 91, 47, 46}          \* a A b ] - ! \ [ / .
+S1 == {97, 65, 98, 93, 45, 33, 92, 91, 47, 46, 42, 63}  \* a A b ] - ! \ [ / . * ?
 S3 == {97, 47, 46, 10}                                   \* a / . newline
 Subjects == SetToSeq({s \in SeqsUpTo(S1, 2) : s # <<>>} \cup {s \in SeqsOfLen(S3, 3) : TRUE} \cup {<<233>>, <<97, 233>>, <<128512>>})
 
